@@ -107,6 +107,23 @@ CHECKS = {
              'the generated named-constant tables, %d %x %o %b, other dump_* functions.',
         technique='bounded unwinding (CBMC) of C lowered from the real C++ per run against a scanner-model postcondition',
     ),
+    'C10': dict(
+        category='other',
+        text='BOUNDED in the size of the graph, unbounded in the history. op_tr_closure::next with next_from_op, next_from_upstream, both '
+             'send_to_op overloads, state::yield_and_cache and the state constructor are lowered per run from /repo/libzwerg/op.cc; the body '
+             'E is an arbitrary relation over 3 (thorough: 4) distinct stacks, upstream an arbitrary source. A hand-written state '
+             'invariant INV (seen-set = stacks yielded for the current input; work list inside the seen-set without duplicates; every seen '
+             'stack is expanded, pending or being expanded; everything seen is reachable) is shown to hold for the constructed state and to be '
+             're-established by one call from ANY state satisfying it; in the same step: the call terminates, yields only stacks '
+             'reachable from the current input (E*: or the input), never one already yielded for this input, pulls the next input only after '
+             'every reachable stack was yielded and with the seen-set cleared, and reports exhaustion only when upstream is exhausted. '
+             'Plus a whole-run check from the constructed state (1 input; thorough 2): result multiset = reachable set, each once.',
+        design_ref='DESIGN.md section 4 C10',
+        note='bounded (graph of 3/4 stacks), never counted as proved. Trusted: cxx2c lowering; the model of std::set/std::vector/smart pointers '
+             '(stacks represented by the identity of their contents); that stack::operator< identifies exactly equal stacks (C09 covers compare_stack, bounded). '
+             'Not covered: the parser\'s desugaring of E+, E*, E? and the collapsing of repeated suffixes; closures over real sub-operators.',
+        technique='state-invariant induction discharged by CBMC (bounded unwinding with unwinding assertions) on C lowered from the real C++ per run',
+    ),
     'C11': dict(
         category='proof',
         text='Slice: the cached type profile of the value stack, which selects the overload of every word. stack::push/pop/drop '
